@@ -205,3 +205,16 @@ Definition deliver_wf (t : s_deliver) : Prop :=
 Definition submit_wf (t : s_submit) : Prop :=
   s_mr t < 256 /\ addr_wf (s_da t) /\ s_pid t < 256 /\ s_dcs t < 256 /\ vp_wf (s_vp t) /\
   ud_wf (s_dcs t) (s_ud t).
+
+(* ------------------------------------------------------------------ GSM 03.38 6.2.1 default alphabet *)
+(* Unicode code point of each 7-bit code; 0x1B is the escape to the extension table (no character: 0) *)
+Definition gsm_default_alphabet : list N :=
+  [ 64; 163;  36; 165; 232; 233; 249; 236; 242; 199;  10; 216; 248;  13; 197; 229;    (* @ £ $ ¥ è é ù ì ò Ç LF Ø ø CR Å å *)
+   916;  95; 934; 915; 923; 937; 928; 936; 931; 920; 926;   0; 198; 230; 223; 201;    (* Δ _ Φ Γ Λ Ω Π Ψ Σ Θ Ξ ESC Æ æ ß É *)
+    32;  33;  34;  35; 164;  37;  38;  39;  40;  41;  42;  43;  44;  45;  46;  47;    (* 0x20..0x2F as ASCII except 0x24 = currency sign U+00A4 *)
+    48;  49;  50;  51;  52;  53;  54;  55;  56;  57;  58;  59;  60;  61;  62;  63;    (* 0..9 : ; < = > ? *)
+   161;  65;  66;  67;  68;  69;  70;  71;  72;  73;  74;  75;  76;  77;  78;  79;    (* ¡ A..O *)
+    80;  81;  82;  83;  84;  85;  86;  87;  88;  89;  90; 196; 214; 209; 220; 167;    (* P..Z Ä Ö Ñ Ü § *)
+   191;  97;  98;  99; 100; 101; 102; 103; 104; 105; 106; 107; 108; 109; 110; 111;    (* ¿ a..o *)
+   112; 113; 114; 115; 116; 117; 118; 119; 120; 121; 122; 228; 246; 241; 252; 224 ].  (* p..z ä ö ñ ü à *)
+Definition gsm_char (s : N) : N := nth (N.to_nat s) gsm_default_alphabet 0.
